@@ -155,6 +155,17 @@ Theorem C02_upstream_contacted_and_status_is_origins : forall conns Ts n,
 Proof. exact m_relay. Qed.
 Print Assumptions C02_upstream_contacted_and_status_is_origins.
 
+(* every request sent before one that ends the connection (hijack,
+   "Connection: close", an established blind tunnel) - plain, CONNECT, or
+   decrypted inside a MITM tunnel - is read and runs the request modifier:
+   there are exactly [nread reqs] request-modifier calls (each for a different
+   request of the connection, by the theorems above). *)
+Theorem C02_every_request_sent_is_read : forall conns Ts n,
+  model_obs fixed conns = Some (Ts, n) ->
+  all_conns (fun k b reqs T => count is_reqmod T = nread reqs) 0 0 conns Ts.
+Proof. exact m_presented. Qed.
+Print Assumptions C02_every_request_sent_is_read.
+
 (* skip round trip: no upstream contact and, unless the same call hijacked
    the session, a warning-free 200 reaches the response modifier (and, by
    the previous theorem, the client) — for plain
